@@ -602,11 +602,16 @@ pub fn orchestrate<P: Property>(tier: Tier) -> i32 {
             let st = Command::new(self_exe())
                 .arg("shrink")
                 .arg(&raw_path)
-                .arg(&min_path)
-                .stdout(Stdio::null())
+                .arg("-")
+                .stdout(Stdio::piped())
                 .stderr(Stdio::inherit())
-                .status();
-            if matches!(st, Ok(s) if s.success()) && min_path.exists() {
+                .output();
+            if let Ok(o) = &st {
+                if o.status.success() && !o.stdout.is_empty() {
+                    let _ = fs::write(&min_path, &o.stdout);
+                }
+            }
+            if matches!(&st, Ok(o) if o.status.success()) && min_path.exists() {
                 match fresh_replay(&min_path, tmo) {
                     Ok(Some((c, d))) if c == class => {
                         final_path = min_path.clone();
@@ -834,7 +839,13 @@ pub fn shrink_main<P: Property>(path: &str, out: &str) -> i32 {
     if !detail.is_empty() {
         nv["detail"] = json!(detail);
     }
-    fs::write(out, serde_json::to_string_pretty(&nv).unwrap()).expect("write minimised");
+    let text = serde_json::to_string_pretty(&nv).unwrap();
+    if out == "-" {
+        // the process may have dropped its privileges: let the caller write
+        println!("{text}");
+    } else {
+        fs::write(out, text).expect("write minimised");
+    }
     0
 }
 
